@@ -8,8 +8,15 @@ import SquidModel.Uri.Parse
 namespace SquidModel.Uri
 open SquidModel.Gen.UriParse
 
+def digitChar (d : Nat) : UInt8 := UInt8.ofNat (48 + d)
+
+/-- decimal digits, most significant first, in front of `acc`; fuel = more than the number of digits -/
+def decimalAux : Nat → Nat → Bytes → Bytes
+  | 0, _, acc => acc
+  | f + 1, n, acc => if n < 10 then digitChar n :: acc else decimalAux f (n / 10) (digitChar (n % 10) :: acc)
+
 /-- `appendf(":%hu", *port())` -/
-def decimal (n : Nat) : Bytes := (Nat.toDigits 10 n).map fun c => UInt8.ofNat c.toNat
+def decimal (n : Nat) : Bytes := decimalAux (n + 1) n []
 
 /-- `authority(requirePort)` -/
 def authority (r : Parsed) (requirePort : Bool) : Bytes :=
